@@ -1,5 +1,5 @@
 CONSTANTS Bases <- BasesAB  Filters <- FiltersPT  Paths <- PathsXY
-  MaxFl = 2  MaxHandles = 6  MaxColls = 3  MaxOps = 3  KeyIncludesFilters = TRUE
+  MaxFl = 2  MaxHandles = 6  MaxColls = 3  MaxOps = 3  KeyIncludesFilters = TRUE  Views <- ViewsTP
 SPECIFICATION Spec
 INVARIANT EmitAtHorizon
 CHECK_DEADLOCK FALSE
